@@ -23,6 +23,22 @@ def generate(ctx):
                 "s": E.gen_scale(rng), "mode": "deform", "cls": cls, "seed": rng.randrange(2 ** 31),
                 "newpos": newpos, "sigma": sigma,
                 "ident": rng.choice(["fresh", "fresh", "construction-object", "reused-object"])}
+        if len(pos) >= 3 and rng.random() < 0.08:
+            # new conformation in which an anchor's FIRST frame neighbour (its lowest-numbered bonded atom) sits
+            # exactly on the anchor: the frame is still defined (first vector from the second neighbour, fallback
+            # normal), so shape and locality must hold (seed C03-8: `<` for `<=` in the aligned-case test, 0 < 0)
+            nb0 = E.neighbours(len(pos), bonds)
+            anchors0 = [a for a in range(len(pos)) if len(nb0[a]) >= 2]
+            if anchors0:
+                a = rng.choice(anchors0)
+                trial = [list(p) for p in newpos]
+                trial[sorted(nb0[a])[0]] = list(trial[a])
+                # only where every frame stays defined: no anchor may coincide with its SECOND frame neighbour
+                # (the explicit hypothesis `DistinctFrames` of the theorems; there the first vector is 0/0)
+                if all(trial[b] != trial[sorted(nb0[b])[1]] for b in anchors0):
+                    newpos = trial
+                    case["newpos"] = newpos
+                    case["cls"] = cls + "+first-neighbour-on-anchor"
         if len(pos) >= 4 and rng.random() < 0.5:
             case["mode"] = "local"
             case["moved"] = rng.randrange(len(pos))
